@@ -41,6 +41,22 @@ def inject_error(m, rng):
         l["flag"] = "urgent"
         l["both_flags"] = True
         return "location/both-flags"
+    if rng.random() < 0.15:
+        # a location whose name is already taken, carrying labels of its own, in front of other locations: both
+        # readers report the duplicate and go on; what follows must not be affected
+        t = rng.choice(m["templates"])
+        # (the name of an urgent or committed location is not reused: the plain-text format names the flagged locations
+        # after all of them are declared, the XML format flags each location as it is read, so that for a name declared
+        # twice the two formats legitimately flag different declarations)
+        named = [l for l in t["locations"] if l.get("name") and not l.get("flag") and not l.get("both_flags")]
+        if named and len(t["locations"]) >= 2:
+            src = rng.choice(named)
+            dup = {"id": "id9%d" % rng.randint(100, 999), "name": src["name"],
+                   "inv": ("bin", "LE", ("id", "gx0"), ("int", rng.randint(1, 9))), "flag": None}
+            if rng.random() < 0.5:
+                dup["rate"] = ("int", rng.randint(1, 9))
+            t["locations"].insert(rng.randint(1, len(t["locations"]) - 1), dup)
+            return "location/duplicate-name"
     kind, ti, i = rng.choice(cands)
     t = m["templates"][ti]
     what = rng.choice(["undeclared", "type", "disjunction"])
